@@ -212,6 +212,24 @@ nd::harnesses! {
         assert!(unsafe { *addr } == w, "host writes landed in plugin memory");
     }
 
+    /// A BORROWED foreign box (no drop function, as the C++ header's `CBox(T *instance)` constructor makes
+    /// them): dropping it on the host side releases nothing - in particular not through the host allocator.
+    fn c05_foreign_cbox_without_drop_fn() {
+        unsafe { BOX_DROPS = 0; }
+        let mut cell: u32 = nd::any();
+        let init = cell;
+        let view = CBoxView { instance: &mut cell, drop_fn: None };
+        let b: CBox<u32> = unsafe { core::mem::transmute(view) };
+        assert!(*b == init);
+        if nd::any() {
+            drop(b.into_opaque());
+        } else {
+            drop(b);
+        }
+        unsafe { assert!(BOX_DROPS == 0) };
+        assert!(cell == init, "the borrowed value is still there and untouched");
+    }
+
     #[kani::unwind(10)] fn c05_foreign_cvec_i0() { foreign_cvec::<0>() }
     #[kani::unwind(10)] fn c05_foreign_cvec_i1() { foreign_cvec::<1>() }
     #[kani::unwind(10)] fn c05_foreign_cvec_i2() { foreign_cvec::<2>() }
